@@ -177,6 +177,13 @@ def gen_cases(rng, tier):
                    "0:inv,100:accept,1000:bye,2000:bye,90000:options", "0:inv,100:accept,40000:bye,90000:options", "0:inv,100:accept,200:ack,1000:bye,2000:bye,90000:options",
                    "0:inv,100:reject:486,1000:bye,90000:options", "0:inv,100:accept,1000:update,33000:info,90000:options"):
         cases.append(["ua%d" % k, "c08", "ua", "uas", "-", script, "1"]); k += 1
+    # a PRACK the invite usage claims is answered once whenever it comes: in time, after the acceptor gave the wait up (64*T1 without a
+    # PRACK), twice, and with a RAck that names nothing
+    rel = "Supported: 100rel\r\n".encode().hex()
+    for script in ("0:inv:%s,1000:provrel:183,1400:prack,90000:options" % rel, "0:inv:%s,1000:provrel:183,34000:prack,90000:options" % rel,
+                   "0:inv:%s,1000:provrel:183,34000:prack,36000:reject:486,36500:ackf,120000:options" % rel,
+                   "0:inv:%s,1000:provrel:183,1400:prack:wrong,1800:prack,90000:options" % rel, "0:inv:%s,1000:provrel:183,40000:prack:wrong,41000:prack,90000:options" % rel):
+        cases.append(["ua%d" % k, "c08", "ua", "uas", "-", script, "1"]); k += 1
     cases += _dup_cases()
     # exactly one final response also where nothing is ever retransmitted: rejections and answers over a reliable transport, with the
     # ACK early, late or missing (over an unreliable transport the copies must be the same response)
